@@ -49,12 +49,32 @@ fn main() {
         println!("in-model zones: {}", model::time_ref::in_model_zones().len());
         return;
     }
+    if args[0] == "__child" {
+        // hsmc __child <prop> <tier> <job> <start> <end> <step>
+        let prop = args[1].clone();
+        let tier = if args[2] == "quick" { Tier::Quick } else { Tier::Thorough };
+        let job = args[3].clone();
+        let start: u64 = args[4].parse().unwrap();
+        let end: u64 = args[5].parse().unwrap();
+        let step = args[6] == "1";
+        match prop.as_str() {
+            "C03" => {
+                let (hang, mem, stack) = props::c03::child_params(&job);
+                engine::isolate::child_main(start, end, step, hang, mem, stack, move |s, e, ctx, local| {
+                    props::c03::child(tier, job, s, e, ctx, local)
+                })
+            }
+            other => machinery(&format!("no child entry for {other}")),
+        }
+    }
     let code = dispatch!(args[0].as_str(), args,
         "C01" => c01,
         "C02" => c02,
+        "C03" => c03,
         "C04" => c04,
         "C06" => c06,
         "C10" => c10,
+        "C11" => c11,
         "C12" => c12,
         "C15" => c15,
         "C16" => c16,
